@@ -245,6 +245,7 @@ def run(pid, tier):
         else:
             runs = [('default', exe)]
             runs.append(('dtostre', lib.build('drv_format', ['drv_format.c'], config='dtostre')))
+            runs.append(('iso', lib.build('drv_format', ['drv_format.c'], config='iso')))       # the library's own strnlen fallback
             for config, e in runs:
                 args = ['fmt', seed, (40 if quick else 1200) if config == 'default' else (25 if quick else 800), 40]
                 if drive(rep, e, args, w + '/fmt.ndjson', 'fmt-' + config):
